@@ -10,6 +10,7 @@
 package main
 
 import (
+	"bytes"
 	"context"
 	"encoding/binary"
 	"fmt"
@@ -24,6 +25,7 @@ import (
 	bitfield "github.com/OffchainLabs/go-bitfield"
 	"github.com/ethereum/go-ethereum/p2p/enode"
 	"github.com/zen-eth/shisui/portalwire"
+	utp "github.com/zen-eth/utp-go"
 	"verifharness/lib"
 	"verifharness/pnode"
 )
@@ -54,6 +56,7 @@ type world struct {
 	open  atomic.Int64
 	peak  atomic.Int64
 	stop  chan struct{}
+	tap   atomic.Pointer[chan *portalwire.ContentElement] // when set, the drainer forwards what it takes off the queue
 
 	protocolStopped bool
 }
@@ -83,7 +86,13 @@ func newWorld(r *lib.Run, idx, limit, nPeers int, respTimeout time.Duration) (*w
 			select {
 			case <-w.stop:
 				return
-			case <-n.Queue:
+			case e := <-n.Queue:
+				if t := w.tap.Load(); t != nil {
+					select {
+					case *t <- e:
+					default:
+					}
+				}
 			}
 		}
 	}()
@@ -672,6 +681,204 @@ func inboundPaths(r *lib.Run, idx, limit int) {
 	}
 }
 
+// inboundLateRelease: the reception goroutine of a finished inbound transfer lives on for the code's own 15 s
+// accept timeout and gives its slot back a second time when it ends. That second release must not be booked
+// against a transfer that took the slot in the meantime. Every slot is used by a transfer that succeeds, taken
+// again by other senders that connect and keep their stream open (kept alive, so that the node's idle timeout does
+// not end it), and after the first generation's goroutines have ended a further offer must still be refused. That
+// the held transfers were in progress when the further offer was answered is established afterwards: their streams
+// are completed and the node hands their contents over after the answer.
+func inboundLateRelease(r *lib.Run, idx, limit int) {
+	w, err := newWorld(r, idx, limit, 2*limit+1, 300*time.Millisecond)
+	if err != nil {
+		r.FloorMiss("world: %v", err)
+		return
+	}
+	defer w.close()
+	tap := make(chan *portalwire.ContentElement, 64)
+	w.tap.Store(&tap)
+	keyN := 0
+	send := func(p *peer) (key []byte, accepted int, connID uint16, ok bool) {
+		keyN++
+		key = []byte{0x00, byte(keyN >> 8), byte(keyN), byte(idx), 7}
+		msg := append([]byte{portalwire.OFFER}, binary.LittleEndian.AppendUint32(nil, 4)...)
+		msg = append(msg, binary.LittleEndian.AppendUint32(nil, 4)...)
+		msg = append(msg, key...)
+		raw, err := p.adv.Talk(w.node.Self(), string(portalwire.History), msg)
+		if err != nil || len(raw) < 2 || raw[0] != portalwire.ACCEPT {
+			return key, 0, 0, false
+		}
+		a := &portalwire.AcceptV1{}
+		if a.UnmarshalSSZ(raw[1:]) != nil {
+			return key, 0, 0, false
+		}
+		return key, len(a.GetAcceptIndices()), binary.BigEndian.Uint16(a.ConnectionId), true
+	}
+	notReached := func(why string) {
+		r.Count("inbound_late_release_round_not_reached_info", 1)
+		fmt.Printf("INFO property=C16 inbound late release (limit %d): not reached: %s\n", limit, why)
+	}
+	// a stream lives on its dial context: all of them are cancelled when the scenario ends
+	dctx, dcancel := context.WithCancel(context.Background())
+	defer dcancel()
+	dial := func(p *peer, c uint16) (*utp.UtpStream, error) {
+		type res struct {
+			conn *utp.UtpStream
+			err  error
+		}
+		ch := make(chan res, 1)
+		go func() {
+			conn, err := p.adv.Utp.DialWithCid(dctx, w.node.Self(), c)
+			ch <- res{conn, err}
+		}()
+		select {
+		case x := <-ch:
+			return x.conn, x.err
+		case <-time.After(12 * time.Second):
+			return nil, fmt.Errorf("no connection within 12 s")
+		}
+	}
+	// generation 1: every slot used by transfers that succeed, twenty-four times over (each leaves a reception
+	// goroutine behind that ends 15 s later; many of them, so that whatever per-slot state the node keeps or
+	// recycles has had an earlier owner)
+	gen1Start := time.Now()
+	for round := 0; round < 24; round++ {
+		for i := 0; i < limit; i++ {
+			p := w.peers[i]
+			_, a, c, ok := send(p)
+			r.Count("inbound_offers_sent", 1)
+			if !ok || a == 0 {
+				notReached("first-generation offer not accepted")
+				return
+			}
+			conn, err := dial(p, c)
+			if err != nil {
+				notReached(fmt.Sprintf("first-generation dial failed: %v", err))
+				return
+			}
+			wctx, wcancel := context.WithTimeout(context.Background(), 20*time.Second)
+			_, err = conn.Write(wctx, portalwire.VerifEncodeContents([][]byte{make([]byte, 300)}))
+			wcancel()
+			conn.Close()
+			_ = err // whether it arrived is decided below, by the node handing it over
+		}
+		// the node has read them to the end when it hands them over (and has given the slots back before that)
+		for got := 0; got < limit; {
+			select {
+			case <-tap:
+				got++
+			case <-time.After(20 * time.Second):
+				notReached("first-generation contents not handed over within 20 s")
+				return
+			}
+		}
+		if n, ok := w.awaitRestored("inbound", 5*time.Second); !ok {
+			notReached(fmt.Sprintf("only %d slots obtainable after a first-generation round was handed over", n))
+			return
+		}
+		if time.Since(gen1Start) > 10*time.Second { // scheduling only: the first receptions must not end before the second generation starts
+			break
+		}
+	}
+	r.Count("inbound_late_release_first_generations_completed", 1)
+	if n, ok := w.awaitRestored("inbound", 5*time.Second); !ok {
+		notReached(fmt.Sprintf("only %d slots obtainable after the first generation was handed over", n))
+		return
+	}
+	// generation 2: every slot taken again, streams connected and kept open
+	type held struct {
+		key  []byte
+		conn *utp.UtpStream
+		sent int
+	}
+	var hs []*held
+	for i := 0; i < limit; i++ {
+		p := w.peers[limit+i]
+		key, a, c, ok := send(p)
+		r.Count("inbound_offers_sent", 1)
+		if !ok || a == 0 {
+			notReached("second-generation offer not accepted")
+			return
+		}
+		conn, err := dial(p, c)
+		if err != nil {
+			notReached(fmt.Sprintf("second-generation dial failed: %v", err))
+			return
+		}
+		h := &held{key: key, conn: conn}
+		hs = append(hs, h)
+		defer conn.Close()
+		wctx, wcancel := context.WithTimeout(context.Background(), 10*time.Second)
+		_, err = conn.Write(wctx, []byte{0x88, 0x27}) // announces one 5000-byte item
+		wcancel()
+		if err != nil {
+			notReached(fmt.Sprintf("second-generation first write failed: %v", err))
+			return
+		}
+	}
+	// 17 s of the node's own time pass (its first-generation goroutines end after their 15 s accept timeout);
+	// a few bytes every half second keep the held streams from idling out
+	for tick := 0; tick < 34; tick++ {
+		time.Sleep(500 * time.Millisecond)
+		for _, h := range hs {
+			wctx, wcancel := context.WithTimeout(context.Background(), 5*time.Second)
+			_, err := h.conn.Write(wctx, make([]byte, 8))
+			wcancel()
+			if err != nil {
+				notReached(fmt.Sprintf("a held stream broke while waiting (tick %d): %v", tick, err))
+				return
+			}
+			h.sent += 8
+		}
+	}
+	for len(tap) > 0 {
+		<-tap
+	}
+	extra := 0
+	for k := 0; k < 2; k++ {
+		_, a, _, ok := send(w.peers[2*limit])
+		r.Count("inbound_offers_sent_after_first_generation_ended", 1)
+		if ok && a > 0 {
+			extra++
+		}
+	}
+	// complete the held streams: contents handed over now were still being received when the offers above were answered
+	for _, h := range hs {
+		wctx, wcancel := context.WithTimeout(context.Background(), 20*time.Second)
+		_, _ = h.conn.Write(wctx, make([]byte, 5000-h.sent))
+		wcancel()
+		h.conn.Close()
+	}
+	inProgress := 0
+	deadline := time.After(30 * time.Second)
+wait:
+	for inProgress < len(hs) {
+		select {
+		case e := <-tap:
+			for _, h := range hs {
+				if len(e.ContentKeys) == 1 && bytes.Equal(e.ContentKeys[0], h.key) && len(e.Contents) == 1 && len(e.Contents[0]) == 5000 {
+					inProgress++
+				}
+			}
+		case <-deadline:
+			break wait
+		}
+	}
+	r.Eval(1)
+	if inProgress < limit {
+		notReached(fmt.Sprintf("only %d of %d held transfers were handed over afterwards", inProgress, limit))
+	} else {
+		r.Count("inbound_late_release_rounds", 1)
+		r.Distinct(fmt.Sprintf("inbound-late-release-limit%d", limit))
+		if extra > 0 {
+			r.Violation("more-transfers-than-limit:inbound:after-earlier-receptions-ended",
+				fmt.Sprintf("with a limit of %d: %d transfers succeeded, %d more took the slots and were still being received (handed over later), and 17 s after the first ones %d further offer(s) were accepted", limit, limit, inProgress, extra),
+				map[string]any{"limit": limit, "transfers_in_progress": inProgress, "further_offers_accepted": extra})
+		}
+	}
+	w.verdict("transfer:late-release", "inbound", 100*time.Second, nil)
+}
+
 // gossipPaths: gossip rounds to several peers with mixed outcomes; the number of
 // OFFER exchanges / transfers the peers see in progress at once is bounded by the limit.
 func gossipPaths(r *lib.Run, idx, limit int) {
@@ -848,7 +1055,7 @@ func run(r *lib.Run) {
 	}()
 	pnode.Quiet()
 	r.SetRule("fault enumeration over the exit paths of an offer. Outbound (node offers to a scripted peer, permit taken through the node's own controller): peer declines, empty reply, wrong code, undecodable accept, wrong verdict count, accepted+served, accepted then connection closed at once, accepted but nobody listens on the announced id, silent peer, offers that cannot be encoded (65 keys, 3000-byte key; also through gossip), slot still taken while every accepted transfer is pending; " +
-		"gossip rounds to 8 peers with mixed outcomes (bound on simultaneously open exchanges), gossip beyond the offer-queue capacity with every worker blocked, Stop() with offers queued and in progress. Inbound (scripted peers offer, all slots taken at once by different peers): success, garbage stream, wrong item count, dialled and closed, never dialled, limit 0. Limits 0, 1, 2, 50 (+1400 / 300 for the queue and stop paths). Gossip calls that race with and follow Stop(). A node assembled and started by portal.NewNode (loopback sockets) for configured limits 0, 1, 3, 50: slots obtainable through its own uTP service. " +
+		"gossip rounds to 8 peers with mixed outcomes (bound on simultaneously open exchanges), gossip beyond the offer-queue capacity with every worker blocked, Stop() with offers queued and in progress. Inbound (scripted peers offer, all slots taken at once by different peers): success, garbage stream, wrong item count, dialled and closed, never dialled, limit 0. Inbound, two generations (limits 1 and 2): up to 24 rounds of transfers that succeed, then every slot taken again by other senders whose streams are kept alive for 17 s - past the end of the earlier reception goroutines (15 s accept timeout) - and two further offers that must be refused while those transfers are still being received (established afterwards by the hand-over of the completed streams). Limits 0, 1, 2, 50 (+1400 / 300 for the queue and stop paths). Gossip calls that race with and follow Stop(). A node assembled and started by portal.NewNode (loopback sockets) for configured limits 0, 1, 3, 50: slots obtainable through its own uTP service. " +
 		"distinct_nontrivial = distinct (direction, path, limit) whose quiescent slot count was measured")
 	r.Assume("quiescence = the scenario's own activity has ceased and the code's own timeouts (15 s accept/dial, 60 s read/write; uTP idle timeout shortened to 4 s through the verif config) have had about twice their sum; not restored within the watchdog is a leak")
 	r.Assume("slots are counted by acquiring through the exported GetInboundPermit/GetOutboundPermit until refusal and releasing again")
@@ -866,6 +1073,11 @@ func run(r *lib.Run) {
 				idx++
 				go func(f func(*lib.Run, int, int), idx, l int) { defer wg.Done(); f(r, idx, l) }(f, idx, l)
 			}
+		}
+		for _, l := range []int{1, 2} {
+			wg.Add(1)
+			idx++
+			go func(idx, l int) { defer wg.Done(); inboundLateRelease(r, idx, l) }(idx, l)
 		}
 		wg.Add(2)
 		idx += 2
